@@ -11,27 +11,41 @@ service, terminator and date are the expected ones. -/
 theorem scopeCheck_ok_iff (a : Authenticator) (region service : Bytes) :
     scopeCheck a region service = .ok () ↔
       ∃ ak, splitOn 0x2F a.credential = [ak, fmtDate (utcDate a.timestamp), region, service, b!"aws4_request"] := by
-  sorry
+  exact scopeCheck_ok_iff' a region service
 
 /-- Another number of parts is an incomplete signature (400). -/
 theorem arity_incomplete (a : Authenticator) (region service : Bytes)
     (h : (splitOn 0x2F a.credential).length ≠ 5) :
     scopeCheck a region service = .err .IncompleteSignature ∧ ErrKind.IncompleteSignature.status = 400 := by
-  sorry
+  exact ⟨scopeCheck_not_five a region service h, rfl⟩
 
 /-- Five parts with any mismatch is a signature mismatch (403). -/
 theorem scope_mismatch (a : Authenticator) (region service : Bytes) (ak d r sv t : Bytes)
     (h : splitOn 0x2F a.credential = [ak, d, r, sv, t])
     (hm : r ≠ region ∨ sv ≠ service ∨ t ≠ b!"aws4_request" ∨ d ≠ fmtDate (utcDate a.timestamp)) :
     scopeCheck a region service = .err .SignatureDoesNotMatch ∧ ErrKind.SignatureDoesNotMatch.status = 403 := by
-  sorry
+  refine ⟨?_, rfl⟩
+  rw [scopeCheck_five a region service ak d r sv t h, if_neg]
+  rintro ⟨h1, h2, h3, h4⟩
+  rcases hm with hm | hm | hm | hm
+  · exact hm h1
+  · exact hm h2
+  · exact hm h3
+  · exact hm h4
 
 /-- Acceptance implies the scope is this server's, with the date of the request instant in UTC. -/
 theorem accept_implies_scope {σ : Type} (H : Bytes → Bytes) (cfg : Config) (P : Provider σ) (s : σ)
     (req : Request) (r : Returned) (h : (validate H cfg P s req).out = .ok r) :
     ∃ a ak, authOf H cfg req = .ok a ∧
       splitOn 0x2F a.credential = [ak, fmtDate (utcDate a.timestamp), cfg.region, cfg.service, b!"aws4_request"] := by
-  sorry
+  obtain ⟨a, ha⟩ := authOf_ok_of_validate P s (Or.inl ⟨r, h⟩)
+  obtain ⟨_, _, _, _, hok⟩ := validate_of_authOf_ok P s ha
+  obtain ⟨resp, hresp⟩ := hok r h
+  have hp := prevalidate_ok_of_validateSignature H P s a cfg.region cfg.service cfg.now
+    (Or.inl ⟨resp, hresp⟩)
+  obtain ⟨ak, hak⟩ := (scopeCheck_ok_iff a cfg.region cfg.service).mp
+    (scopeCheck_ok_of_prevalidate_ok a cfg.region cfg.service cfg.now hp)
+  exact ⟨a, ak, ha, hak⟩
 
 /-- The key provider is asked for exactly that access key, session token, UTC date, and the
 server's region and service — and for nothing else. -/
@@ -41,7 +55,16 @@ theorem provider_args {σ : Type} (H : Bytes → Bytes) (cfg : Config) (P : Prov
       splitOn 0x2F a.credential = [ak, fmtDate (utcDate a.timestamp), cfg.region, cfg.service, b!"aws4_request"] ∧
       c = { accessKey := ak, sessionToken := a.sessionToken, date := utcDate a.timestamp,
             region := cfg.region, service := cfg.service } := by
-  sorry
+  have hne : (validate H cfg P s req).calls ≠ [] := List.ne_nil_of_mem hc
+  obtain ⟨a, ha⟩ := authOf_ok_of_validate P s (Or.inr hne)
+  obtain ⟨hcalls, _, _, _, _⟩ := validate_of_authOf_ok P s ha
+  rw [hcalls] at hc hne
+  have hp := prevalidate_ok_of_validateSignature H P s a cfg.region cfg.service cfg.now (Or.inr hne)
+  obtain ⟨ak, hak⟩ := (scopeCheck_ok_iff a cfg.region cfg.service).mp
+    (scopeCheck_ok_of_prevalidate_ok a cfg.region cfg.service cfg.now hp)
+  refine ⟨a, ak, ha, hak, ?_⟩
+  rw [validateSignature_calls H P s a cfg.region cfg.service cfg.now c hc, providerReqOf,
+    splitFirst_fst_of_splitOn_cons 0x2F a.credential ak _ hak]
 
 /-- A foreign scope is refused before the provider is consulted, so a signature that would verify
 under the foreign scope's key is still refused — whatever the provider would have answered. -/
@@ -50,14 +73,26 @@ theorem foreign_scope_refused {σ : Type} (H : Bytes → Bytes) (cfg : Config) (
     (hs : scopeCheck a cfg.region cfg.service ≠ .ok ()) :
     (∃ k, (validate H cfg P s req).out = .err k ∧ (k = .SignatureDoesNotMatch ∨ k = .IncompleteSignature)) ∧
     (validate H cfg P s req).calls = [] := by
-  sorry
+  obtain ⟨hcalls, _, herr, _, _⟩ := validate_of_authOf_ok P s ha
+  have hk : ∃ k, prevalidate a cfg.region cfg.service cfg.now = .err k ∧
+      (k = .SignatureDoesNotMatch ∨ k = .IncompleteSignature) := by
+    rcases prevalidate_cases a cfg.region cfg.service cfg.now with hp | hp
+    · exact ⟨_, hp, Or.inl rfl⟩
+    · rcases scopeCheck_cases a cfg.region cfg.service with h1 | h1 | h1
+      · exact absurd h1 hs
+      · exact ⟨_, hp.trans h1, Or.inl rfl⟩
+      · exact ⟨_, hp.trans h1, Or.inr rfl⟩
+  obtain ⟨k, hpk, hk⟩ := hk
+  have hv := validateSignature_of_prevalidate_err H P s a cfg.region cfg.service cfg.now k hpk
+  rw [hv] at hcalls herr
+  exact ⟨⟨k, herr k rfl, hk⟩, hcalls⟩
 
 /-- The scope enters the string-to-sign: it is the credential minus the access key. -/
 theorem scope_in_string_to_sign (a : Authenticator) (ak d r sv t : Bytes)
     (h : splitOn 0x2F a.credential = [ak, d, r, sv, t]) :
     stringToSign a = .ok (AWS4_HMAC_SHA256 ++ [0x0A] ++ compactUtc a.timestamp ++ [0x0A]
       ++ (d ++ [0x2F] ++ r ++ [0x2F] ++ sv ++ [0x2F] ++ t) ++ [0x0A] ++ hexLower a.creqSha) := by
-  sorry
+  exact stringToSign_of_five a ak d r sv t h
 
 /-- A sample authenticator for the non-vacuity examples (2015-08-30T12:36:00Z). -/
 def sampleAuth (cred : Bytes) : Authenticator :=
